@@ -1,6 +1,6 @@
 PROPERTY = "C11"
 LEVEL = "proof"
-LEAN_MODULES = ["CifModel.Props.C11"]
+LEAN_MODULES = ["CifModel.Props.C11", "CifModel.Props.ReviewC11"]
 REQUIRED = ["CifModel.C11_table", "CifModel.C11_tree_link", "CifModel.C11_table_tree", "CifModel.C11_version", "CifModel.C11_wrong_encoding",
             "CifModel.C11_bom_only_first", "CifModel.C11_same_text_any_signature",
             "CifModel.C11_terminators", "CifModel.C11_cex_named_default_ignored", "CifModel.C11_cex_magic_not_token",
